@@ -309,6 +309,15 @@ def record_corpus_file(name):
         f.flush()
         f.seek(0)
         s1 = parser.read_3d_structure(f)
+    import zlib
+    if "#" not in name and zlib.crc32(name.encode()) % 2 == 0:
+        # environment action: every second structure (variants aside) has been annotated (secondary structure, inter-stem
+        # parameters) before its torsions are asked for - reading geometry must not change it
+        try:
+            from rnapolis.annotator import extract_secondary_structure
+            extract_secondary_structure(s1, None)
+        except Exception:
+            pass
     df = parser_v2.parse_cif_atoms(text) if iscif else parser_v2.parse_pdb_atoms(text)
     st = tertiary_v2.Structure(df)
     table = st.torsion_angles
@@ -392,7 +401,8 @@ def record_corpus_file(name):
                     cls = "none" if cc is None else cc.value
                 else:
                     res = result(tertiary.torsion_angle, *at1)
-                p1 = _path(res, [np.asarray(a.coordinates, dtype=float) for a in at1])
+                # reference from the coordinate FIELDS as read (not from any array the object may cache)
+                p1 = _path(res, [np.array([a.x, a.y, a.z], dtype=float) for a in at1])
             elif angle.startswith("chi") and r1 is not None:
                 p1 = _absent(result(lambda: r1.chi))
                 cc = r1.chi_class
